@@ -97,3 +97,25 @@ Theorem C41_nonvacuous :
                  /\ e_post e = Some (Some [123;125]%N).
 Proof. exact sample_roundtrips. Qed.
 Print Assumptions C41_nonvacuous.
+
+(* "in the same order", for ANY list of flows (no guard, no contracts; the model of make_har takes no creation or
+   start time as input, so the statement holds whatever those are): if the export succeeds, entry number i is the
+   entry of the i-th HTTP flow of the list handed to the exporter ... *)
+Theorem C41_entry_order : forall (L : lib) (flows : list flow) (es : list entry),
+  make_har L flows = Ok es ->
+  Forall2 (fun x e => flow_entry L (fst x) (snd x) = Ok e) (http_flows flows) es.
+Proof. exact entry_order. Qed.
+Print Assumptions C41_entry_order.
+
+(* ... exporting a concatenation gives the concatenation of the exports ... *)
+Theorem C41_export_app : forall (L : lib) (fs1 fs2 : list flow) (es1 es2 : list entry),
+  make_har L fs1 = Ok es1 -> make_har L fs2 = Ok es2 -> make_har L (fs1 ++ fs2) = Ok (es1 ++ es2).
+Proof. exact make_har_app. Qed.
+Print Assumptions C41_export_app.
+
+(* ... and the reader yields the import of entry i at position i (up to the first entry it fails on). *)
+Theorem C41_import_order : forall (se : bool) (L : lib) (es : list entry) (imported : list iflow) (st : stop),
+  import_har se L es = (imported, st) ->
+  Forall2 (fun e i => request_to_flow se L e = Ok i) (firstn (length imported) es) imported.
+Proof. exact import_order. Qed.
+Print Assumptions C41_import_order.
